@@ -65,9 +65,13 @@ def derive_source(case, schema_rel, query_rel):
             keys.insert(0, f)
         else:
             keys.append(f)
-    elif "skip_serializing_none" in keys and len(keys) > 1 and _r.random() < 0.5:
+    elif "skip_serializing_none" in keys and len(keys) > 1 and _r.random() < 0.6:
         keys.remove("skip_serializing_none")
-        keys.insert(_r.randrange(len(keys)), "skip_serializing_none")
+        lists = [i for i, k in enumerate(keys) if k.startswith("extern_enums(")]
+        if lists and _r.random() < 0.6:
+            keys.insert(lists[0] + 1, "skip_serializing_none")      # a bare flag directly behind a list-valued item
+        else:
+            keys.insert(_r.randrange(len(keys) + 1), "skip_serializing_none")
     vis = {"pub": "pub ", "pub(crate)": "pub(crate) ", "inherited": "", None: ""}[o.get("visibility")]
     rust = (o.get("normalization") or "").strip().lower() == "rust"
     for op in doc["operations"]:
